@@ -85,7 +85,8 @@ def observe(cmd, args):
         return "ok" if got == want else "contains() says %s, the structured reading of the statement says %s" % (got, want)
     if cmd == "law.sp.pair":
         # laws of C04 on one specifier version text V (args[0], without operator; may end in ".*") and two candidates c, c2;
-        # args[3]: the prereleases argument every contains() call gets (T/N/F, default T); args[4]: candidates passed as str / Version object / subclass
+        # args[3]: the prereleases argument every contains() call gets (T/N/F, default T); args[4]: candidates passed as str / Version object / subclass;
+        # args[5] == "E": the prefix specifier of the ~= law is spelled exactly as SpecLift.prefix_text ("E!r1.r2....*", epoch always written)
         vtxt, c, c2 = args[:3]
         setting = TRI[args[3]] if len(args) > 3 else True
         kind = args[4] if len(args) > 4 else "str"
@@ -136,7 +137,8 @@ def observe(cmd, args):
                 if has(le, hi) and not has(le, lo): return "<=%s not downward closed: %r %r" % (vtxt, lo, hi)
         if co is not None and ge is not None:
             rel = list(V.release)[:-1]
-            pfx = mk("==" + (("%d!" % V.epoch) if V.epoch else "") + ".".join(map(str, rel)) + ".*")
+            exact = len(args) > 5 and args[5] == "E"
+            pfx = mk("==" + (("%d!" % V.epoch) if (V.epoch or exact) else "") + ".".join(map(str, rel)) + ".*")
             if pfx is not None:
                 for x, vx in both:
                     if gate_open(vx) and has(co, x) != (has(ge, x) and has(pfx, x)): return "~=%s is not >= and prefix match on %r" % (vtxt, x)
